@@ -84,7 +84,9 @@ def facts_path(config, repo=None):
     marker = os.path.join(out, "DONE")
     if os.path.exists(marker):
         return out, sha
-    with open(os.path.join(CACHE, "extract-%s.lock" % config), "w") as lk:
+    # parallel self-test workers use one target directory each (VCHECK_SLOT); the registered checks use slot 0
+    slot = os.environ.get("VCHECK_SLOT", "")
+    with open(os.path.join(CACHE, "extract-%s%s.lock" % (config, slot)), "w") as lk:
         fcntl.flock(lk, fcntl.LOCK_EX)
         if os.path.exists(marker):
             return out, sha
@@ -94,7 +96,7 @@ def facts_path(config, repo=None):
         # persistent target dir per config for dependencies; the jubako crate itself is
         # forced to be re-checked by removing its fingerprints (cargo would otherwise skip
         # the wrapper and replay cached output).
-        tdir = os.path.join(CACHE, "target", config)
+        tdir = os.path.join(CACHE, "target", config + slot)
         os.makedirs(tdir, exist_ok=True)
         for prof in ("debug", "release"):
             fp = os.path.join(tdir, prof, ".fingerprint")
